@@ -557,6 +557,16 @@ int vnadata_convert(const vnadata_t *vdp_in, vnadata_t *vdp_out,
 		}
 	    }
 	}
+
+	/*
+	 * The output is in per-frequency mode whenever the input is,
+	 * also when there were no frequencies or ports to copy, so that
+	 * it does not differ from the result of an in-place conversion.
+	 */
+	if ((vdip_in->vdi_flags & VF_PER_F_Z0) &&
+		_vnadata_convert_to_fz0(VDP_TO_VDIP(vdp_out)) == -1) {
+	    return -1;
+	}
 	if (vnadata_set_filetype(vdp_out, vdip_in->vdi_filetype) == -1) {
 	    return -1;
 	}
